@@ -253,7 +253,22 @@ def run(chk):
         chk.generated_changed += TV.translate()
     except TV.TranslateError as e:
         raise core.InfraError(f'translate_vocab: {e}')
-    chk.lean_build(['PeptVerif.Props.C10'], DRV)
+    PROPS = ['PeptVerif.Props.C10', 'PeptVerif.Props.C10TabU', 'PeptVerif.Props.C10TabP', 'PeptVerif.Props.C10TabX',
+             'PeptVerif.Props.C10Mass'] + (['PeptVerif.Props.C10Generic'] if os.path.exists(
+                 os.path.join(core.LEAN, 'PeptVerif', 'Props', 'C10Generic.lean')) else [])
+    chk.lean_build(PROPS, DRV)
+    if chk.lean_problems:
+        # a table theorem no longer checks: evaluate the same boolean checks entry by entry to name the witnesses
+        for what, kinds in (('unclean', ('unimod', 'psi', 'xlmod')), ('numeric', ('unimod', 'psi')),
+                            ('dupkeys', ('unimod', 'psi', 'xlmod')), ('cross', ('unimod',)), ('monomass', ('unimod', 'mono'))):
+            for kind in kinds:
+                try:
+                    r = chk.driver(DRV, [f'fact\t{what}\t{kind}'])[0]
+                except core.InfraError:
+                    r = ''
+                if r and r != 'bad-op':
+                    chk.notes.append(f'table check {what} fails for {kind} entries (id,name): ' +
+                                     '; '.join(dec(x) for x in r.split(';')))
     chk.trusted += [
         'translate_vocab.py: EntryDb objects (id, name, synonyms, mono, avg, composition) and the element tables as loaded by '
         'the library -> Lean literals (code-point lists, exact decimals of repr(float)); rewritten when /repo changes',
